@@ -20,7 +20,12 @@ MASKS = [0, 0x1, 0x2, 0x3, 0x4, 0x8, 0xC, 0x10, 0x80, 0x200, 0x3FF, 0x3FF, 0xFFF
 ALGS = [3, 4, 2, 1, 8]            # AES, RSA, 3DES, DES, HMAC_SHA1
 NAMES = ["n0", "n1", "n2", "key", "k"]
 GROUPS = ["grpA", "grpB"]
-POLICY_NAMES = ["default", "public", "custom", "nogrp", "missing"]
+POLICY_NAMES = ["default", "public", "custom", "nogrp", "missing", ""]
+# texts that are EQUAL under some reading other than code point equality (Unicode canonical / compatibility equivalence,
+# letter case, invisible or trailing characters) and unequal as strings: two users, two groups, two names of such a
+# pair are two different users, groups, names
+TWINS = [("Ame\u0301lie", "Am\u00e9lie"), ("\u212bke", "\u00c5ke"), ("Alice", "alice"), ("bob", "bob "),
+         ("carol", "carol\u200b"), ("\ufb01ona", "fiona"), ("STRASSE", "stra\u00dfe"), ("k\uff11", "k1")]
 
 ATTR_KIND = {
     "Unique Identifier": "text", "Name": "name", "Object Type": "enum", "Cryptographic Algorithm": "enum",
@@ -46,6 +51,18 @@ class Gen(object):
         self.profile = profile or {}
         self.live = {}            # uid -> {otype, owner, state}  (learned from implementation responses)
         self.dead = []
+        self.users, self.groups, self.names = USERS, GROUPS, NAMES
+        tr = random.Random((seed if isinstance(seed, int) else hash(str(seed))) ^ 0x7717)
+        if self.profile.get("twins") and tr.random() < self.profile["twins"]:
+            # a history of twins: the users / groups / names of this history are pairs from TWINS (either order)
+            a, b = tr.choice(TWINS)
+            if tr.random() < 0.5:
+                a, b = b, a
+            self.users = [a, b, "alice"]
+            c, d = tr.choice(TWINS)
+            self.groups = [c + "-team", d + "-team"] if tr.random() < 0.5 else [d + "-team", c + "-team"]
+            e, f = tr.choice(TWINS)
+            self.names = [e, f, "n0", "key"] if tr.random() < 0.5 else [f, e, "n0", "key"]
 
     # ---- small pickers --------------------------------------------------
     def ch(self, xs):
@@ -81,7 +98,7 @@ class Gen(object):
         return str(self.r.randint(1, hi))
 
     def ident(self, req=None):
-        user = self.ch(USERS + ["alice", "alice"])
+        user = self.ch(self.users + [self.users[0], self.users[0]])
         if self.profile.get("long_users") and self.p(self.profile["long_users"]):
             # identities at and beyond the width the storage declares for the owner column (a certificate common name
             # may have 64 characters): a 60-character user and the user named by its first 50 characters
@@ -162,14 +179,14 @@ class Gen(object):
             if name == "Operation Policy Name":
                 return {"k": "text", "v": self.ch(POLICY_NAMES)}
             if name == "Object Group":
-                return {"k": "text", "v": self.ch(GROUPS)}
+                return {"k": "text", "v": self.ch(self.groups)}
             return {"k": "text", "v": self.ch(["x", "y"])}
         if k == "bool":
             return {"k": "bool", "v": self.p(0.5)}
         if k == "name":
             if self.profile.get("inject_format") and self.p(0.1):
                 return {"k": "name", "v": self.ch(INJECT), "t": 1}
-            return {"k": "name", "v": self.ch(NAMES), "t": 1 if self.p(0.9) else 2}
+            return {"k": "name", "v": self.ch(self.names), "t": 1 if self.p(0.9) else 2}
         if k == "appinfo":
             if self.p(0.08):
                 # empty text strings are legal TTLV: the decoder accepts them whatever the constructors think
@@ -206,7 +223,7 @@ class Gen(object):
                     a["index"] = self.ch([0, 0, 1])
                 attrs.append(a)
         nnames = self.ch([0, 0, 1, 1, 2, 3])
-        names = r.sample(NAMES, nnames) if self.p(0.9) else [self.ch(NAMES) for _ in range(nnames)]
+        names = r.sample(self.names, min(nnames, len(self.names))) if self.p(0.9) else [self.ch(self.names) for _ in range(nnames)]
         for i, n in enumerate(names):
             idx = i if self.p(0.9) else None
             attrs.append({"name": "Name", "index": idx, "value": {"k": "name", "v": n, "t": 1}})
@@ -215,7 +232,7 @@ class Gen(object):
         if self.p(0.25):
             attrs.append({"name": "Sensitive", "index": None, "value": {"k": "bool", "v": self.p(0.6)}})
         for i in range(self.ch([0, 0, 0, 1, 2])):
-            attrs.append({"name": "Object Group", "index": i, "value": {"k": "text", "v": self.ch(GROUPS)}})
+            attrs.append({"name": "Object Group", "index": i, "value": {"k": "text", "v": self.ch(self.groups)}})
         for i in range(self.ch([0, 0, 0, 1, 2])):
             a = self.tattr("Application Specific Information")
             a["index"] = i
